@@ -6,7 +6,7 @@ would reject (length mismatch, index out of range) produce *obligations* through
 the ``need`` callback, never assumptions.
 """
 import z3
-from .core import (Arr, Arr2, LArr, SList, Sym, fresh, fresh_fn, sort_of, uid,
+from .core import (Arr, Arr2, LArr, SList, Sym, fresh, fresh_fn, sort_of, uid,  # noqa
                    I, B, OutsideSubset, concrete_int)
 
 ZERO = z3.IntVal(0)
@@ -145,6 +145,9 @@ def arr_eq(a, b):
 # ---------------------------------------------------------------------------
 # masks
 
+_PROBE = z3.Int('probe!idx')
+
+
 class MaskInfo:
     """count / sel / rank of a boolean mask and of its complement."""
 
@@ -193,10 +196,14 @@ def mask_info(st, m):
         info, pos = mask_info(st, m.tag[1])
         return info, not pos
     cache = st.ghost.setdefault('maskinfo', {})
-    key = id(m)
+    # masks are identified structurally: same length term and same element
+    # term at a probe index (z3 terms are hash-consed, ids are stable while the
+    # term is kept alive in the cache)
+    probe = m.at(_PROBE)
+    key = (probe.get_id(), m.n.get_id())
     if key not in cache:
         cache = dict(cache)
-        cache[key] = (MaskInfo(st, m), m)   # keep m alive
+        cache[key] = (MaskInfo(st, m), m, probe, m.n)
         st.ghost['maskinfo'] = cache
     return cache[key][0], True
 
@@ -421,7 +428,9 @@ class ConcatInfo:
     def __init__(self, st, L):
         self.n = L.n
         self.alen = L.alen
-        self.tot = z3.Int(uid('tot'))
+        from .lib import sum_term
+        # total length = sum of the lengths (same uninterpreted sum as np.sum)
+        self.tot = sum_term(st, Arr(L.n, L.alen, 'int'))
         self.off = fresh_fn(['int'], 'int', 'off')
         self.src = fresh_fn(['int'], 'int', 'src')
         off, src, tot = self.off, self.src, self.tot
